@@ -181,7 +181,7 @@ def run(ctx):
     ctx.run_parallel('shard_random', extra=(ctx.pick(250, 4000), False))
     ctx.run_parallel('shard_random', extra=(ctx.pick(60, 800), True))
     if ctx.thorough or os.environ.get('VERIF_FUZZ'):
-        ctx.run_atheris('tree', ctx.pick(300, 4000), guided=True)
+        ctx.run_atheris('tree', ctx.pick(300, 1500), guided=True)
 
 
 # coverage-guided layer (thorough tier): the script strategy under libFuzzer (vlib/fuzz.py, guided mode)
